@@ -15,13 +15,17 @@ Inductive xkey := KInt (k : Z) | KTup (ks : list Z).
 (* the storage of one account: (key, id of the value term), in the order of first use *)
 Definition xstorage := list (xkey * Z).
 
+(* the fields of the block environment *)
+Inductive bfield := BBasefee | BChainid | BCoinbase | BDifficulty | BGaslimit | BNumber | BTimestamp.
+
 Record xstate := mkX {
   x_balance : Z;                          (* id of the balance term *)
   x_code : list (Z * Z);                  (* (address, identity of the code), in deployment order *)
   x_storage : list (Z * xstorage);        (* (address, storage) *)
   x_conds : list Z;                       (* ids of the path conditions, in the order they were added *)
-  x_sliced : option (list Z) }.           (* positions of the conditions that constrain state variables
+  x_sliced : option (list Z);             (* positions of the conditions that constrain state variables
                                              (None: not determined yet) *)
+  x_block : bfield -> Z }.                (* id of the term held in each block field *)
 
 Definition key_words (k : xkey) : list Z := match k with KInt z => [z] | KTup ks => ks end.
 Definition storage_items (st : xstorage) : list (list Z * Z) := map (fun kv => (key_words (fst kv), snd kv)) st.
@@ -40,11 +44,13 @@ Definition constraint_of (ex : xstate) (c : Z) : Prop :=
   end.
 
 (* ------------------------------------------------------------------ identity *)
-(* two symbolic states are identical: the same balance, code and storage terms and the same
-   constraints on the symbols occurring in them *)
+(* two symbolic states are identical: the same balance, code and storage terms, the same
+   constraints on the symbols occurring in them, and the same block environment -- except for the
+   timestamp, which every invariant transaction replaces by a fresh symbol (>= the previous one) *)
 Definition same_identity (a b : xstate) : Prop :=
   x_balance a = x_balance b /\ x_code a = x_code b /\ storage_terms a = storage_terms b /\
-  (forall c, constraint_of a c <-> constraint_of b c).
+  (forall c, constraint_of a c <-> constraint_of b c) /\
+  (forall fld, fld <> BTimestamp -> x_block a fld = x_block b fld).
 
 (* ------------------------------------------------------------------ meaning *)
 Section Meaning.
@@ -53,12 +59,16 @@ Section Meaning.
   Variable ev : V -> Z -> val.             (* value of the term with this id *)
   Variable holds : V -> Z -> Prop.         (* truth of the condition with this id *)
 
-  (* concrete account state: balances, code, storage contents *)
-  Definition cworld := (val * list (Z * Z) * list (Z * list (list Z * val)))%type.
+  (* concrete state: balances, code, storage contents, block environment (without the timestamp) *)
+  (* the block fields other than the timestamp, in a fixed order *)
+  Definition env_fields : list bfield := [BBasefee; BChainid; BCoinbase; BDifficulty; BGaslimit; BNumber].
+
+  Definition cworld := (val * list (Z * Z) * list (Z * list (list Z * val)) * list val)%type.
 
   Definition concretize (v : V) (ex : xstate) : cworld :=
     (ev v (x_balance ex), x_code ex,
-     map (fun p => (fst p, map (fun kt => (fst kt, ev v (snd kt))) (snd p))) (storage_terms ex)).
+     map (fun p => (fst p, map (fun kt => (fst kt, ev v (snd kt))) (snd p))) (storage_terms ex),
+     map (fun fld => ev v (x_block ex fld)) env_fields).
 
   (* the concrete states a symbolic state stands for *)
   Definition represents (ex : xstate) (w : cworld) : Prop :=
